@@ -6,7 +6,7 @@ from fractions import Fraction
 
 from . import mnp
 from .mnp import _obj, NDArr
-from .symx import ModelGap, is_sym
+from .symx import SInt, ModelGap, is_sym
 
 
 def _solve(A, B):
@@ -80,8 +80,10 @@ class LinearRegression:
         if self.fit_intercept:
             rows = [[1] + r for r in rows]
         for r in rows:
-            for v in r:
-                if is_sym(v):
+            for j_, v in enumerate(r):
+                if isinstance(v, SInt):
+                    r[j_] = int(v)  # an integer feature: decided by forking over its feasible values (the harness bounds them)
+                elif is_sym(v):
                     raise ModelGap("LinearRegression model: symbolic design matrix")
         k = len(rows[0])
         if len(rows) < k:
@@ -107,7 +109,7 @@ class LinearRegression:
         for i in range(a.shape[0]):
             s = self.intercept_
             for c, v in zip(coef, a[i, :]):
-                s = s + c * v
+                s = s + c * (int(v) if isinstance(v, SInt) else v)
             out.append(s)
         return mnp.array(out)
 
